@@ -107,6 +107,9 @@ func Make[T any](n ...int) chan T {
 	return ch
 }
 
+// MakeNamed is make(C, n) for a defined channel type (`type C chan E`).
+func MakeNamed[C ~chan E, E any](n ...int) C { return C(Make[E](n...)) }
+
 func popLive(q *[]*waiter) *waiter {
 	for len(*q) > 0 {
 		w := (*q)[0]
